@@ -83,9 +83,16 @@ class _Env:
     subst: tuple = ()  # ((name, value), ...)
     macro_stack: tuple = ()
     switch_is_scenario: bool = False  # only for the case_scenario option
+    in_with: bool = False  # only for the ctx_continues option: the statement is the one statement of a with-block
+
+
+def env_in_with(env) -> bool:
+    return bool(getattr(env, "in_with", False))
 
 
 class _Builder:
+    ctx_continues = False  # see sem(..., ctx_continues=True)
+
     def __init__(self, macros: dict, perf_var: str, case_scenario: bool):
         self.nodes: dict[Hashable, Node] = {}
         self.n = 0
@@ -254,7 +261,7 @@ class _Builder:
 
     def stmt(self, s: Any, k: Hashable, env: _Env) -> Hashable:
         if isinstance(s, A.Op):
-            if s.name in FLOW_ENDING_PLAIN_OPS:
+            if s.name in FLOW_ENDING_PLAIN_OPS and not (self.ctx_continues and (s.ctx is not None or env_in_with(env))):
                 n = self.add("stop", self.plain_op_label(s, env), (), s)
             else:
                 n = self.add("op", self.plain_op_label(s, env), (k,), s)
@@ -296,7 +303,12 @@ class _Builder:
                 raise StaticError("a with block can not contain labels")
             if isinstance(inner, A.Op) and inner.ctx is not None:
                 raise StaticError("an operation inside a with block can not have an inline context")
-            n = self.stmt(inner, k, env)
+            if self.ctx_continues and isinstance(inner, A.Ctrl) and inner.kind in ("return", "end", "hold") and not (inner.kind == "return" and env.macro_return is not None):
+                # the statement of a with-block is run in the context of the actor / object / performer: its Return / End /
+                # Hold is performed there, the routine itself goes on behind the block
+                n = self.add("op", ({"return": "Return", "end": "End", "hold": "Hold"}[inner.kind], ()), (k,), inner)
+            else:
+                n = self.stmt(inner, k, replace(env, in_with=True) if self.ctx_continues else env)
             return self.add("op", self.ctx_label(s.ctx, env), (n,), s)
         if isinstance(s, A.If):
             nxt = self.seq(s.else_body, k, env) if s.else_body is not None else k
@@ -429,6 +441,7 @@ def sem(
     case_scenario: bool = True,
     extra_macros: Optional[dict] = None,
     with_origin: bool = False,
+    ctx_continues: bool = False,
 ) -> tuple:
     """Reference LTS of every routine of `program`; see the module docstring.
 
@@ -439,6 +452,9 @@ def sem(
     for m in program.macros:
         macros[m.name] = m
     b = _Builder(macros, perf_var, case_scenario)
+    # ctx_continues (C01's refinement): a flow-ending statement inside a with-block / with an inline context is performed in
+    # the context of the actor / object / performer and does not end the routine
+    b.ctx_continues = ctx_continues
     headers = routine_headers(program)
     ids = [h["id"] for h in headers]
     if len(set(ids)) != len(ids):
